@@ -1325,7 +1325,10 @@ impl Drop for Debugger {
 /// Read N bytes from `PID` process.
 pub fn read_memory_by_pid(pid: Pid, addr: usize, read_n: usize) -> Result<Vec<u8>, nix::Error> {
     let mut read_reminder = read_n as isize;
-    let mut result = Vec::with_capacity(read_n);
+    // `read_n` may come from a user or from debugee memory, don't allocate it all in advance:
+    // for a garbage count the first failed read ends the loop
+    const PREALLOC_LIMIT: usize = 64 * 1024;
+    let mut result = Vec::with_capacity(read_n.min(PREALLOC_LIMIT));
 
     let single_read_size = mem::size_of::<c_long>();
 
